@@ -43,10 +43,10 @@ theorem decodeSlice_eq (c : Codec) (r : Bytes) (a b : Nat) :
   cases c.decode (Py.slice r a b) <;> rfl
 
 /-- EXPANDED rows: the translated method returns the decoded characters `start .. end` of the row -/
-theorem get_param_field_expanded (c : Codec) (index : Rt.SDict Text) (cfg : Rt.SDict (Rt.SDict (Rt.SDict Int)))
+theorem get_param_field_expanded (c : Codec) (index : Rt.SDict Text) (cfg : Rt.SDict (Rt.SDict (Rt.SDict Int))) (tid : Text)
     (record : Bytes) (table field : Text) (s e : Nat)
     (hid : c.decode (Py.slice record 11 19) = some table) (hcol : HasColumn cfg table field s e) :
-    Src.IpmParamReaderget_param_field true (decoderOfCodec c) index cfg record field = Param.decodeSlice c record s e := by
+    Src.IpmParamReaderget_param_field true (decoderOfCodec c) index cfg tid record field = Param.decodeSlice c record s e := by
   obtain ⟨layout, cols, h1, h2, h3, h4⟩ := hcol
   unfold Src.IpmParamReaderget_param_field
   have e1 : Rt.slice record (some (11 : Int)) (some (19 : Int)) = Py.slice record 11 19 := slice_nn record 11 19
@@ -55,11 +55,11 @@ theorem get_param_field_expanded (c : Codec) (index : Rt.SDict Text) (cfg : Rt.S
 
 /-- COMPRESSED rows: the table comes from the index by the row's sub-id, and the column positions are those of the
     expanded layout moved 8 to the left -/
-theorem get_param_field_compressed (c : Codec) (index : Rt.SDict Text) (cfg : Rt.SDict (Rt.SDict (Rt.SDict Int)))
+theorem get_param_field_compressed (c : Codec) (index : Rt.SDict Text) (cfg : Rt.SDict (Rt.SDict (Rt.SDict Int))) (tid : Text)
     (record : Bytes) (sub table field : Text) (s e : Nat)
     (hsub : c.decode (Py.slice record 8 11) = some sub) (hix : Rt.dictGetOpt index sub = some table)
     (hcol : HasColumn cfg table field s e) (h8 : 8 ≤ s) (hse : s ≤ e) :
-    Src.IpmParamReaderget_param_field false (decoderOfCodec c) index cfg record field =
+    Src.IpmParamReaderget_param_field false (decoderOfCodec c) index cfg tid record field =
       Param.decodeSlice c record (s - 8) (e - 8) := by
   obtain ⟨layout, cols, h1, h2, h3, h4⟩ := hcol
   unfold Src.IpmParamReaderget_param_field
@@ -72,10 +72,10 @@ theorem get_param_field_compressed (c : Codec) (index : Rt.SDict Text) (cfg : Rt
 
 /-- a compressed row whose sub-id the index does not know has no layout to slice by: KeyError (the reader only calls
     the method for rows it has already matched to the requested table) -/
-theorem get_param_field_unknown_subid (c : Codec) (index : Rt.SDict Text) (cfg : Rt.SDict (Rt.SDict (Rt.SDict Int)))
+theorem get_param_field_unknown_subid (c : Codec) (index : Rt.SDict Text) (cfg : Rt.SDict (Rt.SDict (Rt.SDict Int))) (tid : Text)
     (record : Bytes) (sub field : Text)
     (hsub : c.decode (Py.slice record 8 11) = some sub) (hix : Rt.dictGetOpt index sub = none) :
-    Src.IpmParamReaderget_param_field false (decoderOfCodec c) index cfg record field = .escape .keyError := by
+    Src.IpmParamReaderget_param_field false (decoderOfCodec c) index cfg tid record field = .escape .keyError := by
   unfold Src.IpmParamReaderget_param_field
   have e1 : Rt.slice record (some (8 : Int)) (some (11 : Int)) = Py.slice record 8 11 := slice_nn record 8 11
   have hd : decoderOfCodec c (Py.slice record 8 11) = .ok sub := by unfold decoderOfCodec; rw [hsub]
@@ -84,16 +84,16 @@ theorem get_param_field_unknown_subid (c : Codec) (index : Rt.SDict Text) (cfg :
 
 /-- C18 for the column slicing as translated: the compressed and the expanded representation of the same row body give
     the same column text (the translated method on both, through the model's `C18_compressed_eq_expanded`) -/
-theorem C18_source_compressed_eq_expanded (c : Codec) (index : Rt.SDict Text) (cfg : Rt.SDict (Rt.SDict (Rt.SDict Int)))
+theorem C18_source_compressed_eq_expanded (c : Codec) (index : Rt.SDict Text) (cfg : Rt.SDict (Rt.SDict (Rt.SDict Int))) (tid : Text)
     (hdrC hdrX body : Bytes) (sub table field : Text) (s e : Nat)
     (hC : hdrC.length = 11) (hX : hdrX.length = 19)
     (hsub : c.decode (Py.slice (hdrC ++ body) 8 11) = some sub) (hix : Rt.dictGetOpt index sub = some table)
     (hid : c.decode (Py.slice (hdrX ++ body) 11 19) = some table)
     (hcol : HasColumn cfg table field s e) (h19 : 19 ≤ s) (hse : s ≤ e) :
-    Src.IpmParamReaderget_param_field false (decoderOfCodec c) index cfg (hdrC ++ body) field =
-      Src.IpmParamReaderget_param_field true (decoderOfCodec c) index cfg (hdrX ++ body) field := by
-  rw [get_param_field_compressed c index cfg _ sub table field s e hsub hix hcol (by omega) hse,
-    get_param_field_expanded c index cfg _ table field s e hid hcol]
+    Src.IpmParamReaderget_param_field false (decoderOfCodec c) index cfg tid (hdrC ++ body) field =
+      Src.IpmParamReaderget_param_field true (decoderOfCodec c) index cfg tid (hdrX ++ body) field := by
+  rw [get_param_field_compressed c index cfg tid _ sub table field s e hsub hix hcol (by omega) hse,
+    get_param_field_expanded c index cfg tid _ table field s e hid hcol]
   unfold Param.decodeSlice
   rw [Props.C18.C18_compressed_eq_expanded hdrC hdrX body hC hX s e h19]
 
